@@ -79,6 +79,20 @@ fn run(text: &str) -> String {
     )
 }
 
+/// ptoks <hex text> -> `(ts tt...)` TAB `(oracle (o ...)...)`: the input of the Lean parser model.
+fn parser_input(text: &str) -> String {
+    let text = &format!(" {}", text);
+    match proc_macro2::TokenStream::from_str(text) {
+        Err(_) => "lexerr".into(),
+        Ok(ts) => {
+            let mut o = Vec::new();
+            let mut path = Vec::new();
+            dump::oracle(&ts, &mut path, &mut o);
+            format!("(ts {})\t(oracle {})", dump::tts(&ts), o.join(" "))
+        }
+    }
+}
+
 /// toks <hex text> -> the flat token list: `hex(text):j` per token (j = 1 for a punct that is
 /// joint with the next token), group delimiters as tokens of their own.
 fn flat_tokens(text: &str) -> String {
@@ -123,6 +137,7 @@ fn main() {
         let a = match t.first().copied() {
             Some("run") => run(&unhex(t.get(1).copied().unwrap_or("-"))),
             Some("toks") => flat_tokens(&unhex(t.get(1).copied().unwrap_or("-"))),
+            Some("ptoks") => parser_input(&unhex(t.get(1).copied().unwrap_or("-"))),
             _ => "bad-op".to_string(),
         };
         writeln!(out, "{}", a).unwrap();
